@@ -11,6 +11,7 @@ CONSTANTS
   MaxEx = 1000000
   ProbeNs <- ProbesFaithful
   ProbeUids <- UidsOwn
+  MaxOld = 1
 VIEW viewU
 INVARIANTS SentLeavesPool FieldCount NoShrink PoolCap StaysFull RespCount FreshCookiesOpen
 PROPERTIES SingleUse Answered Fresh
